@@ -44,8 +44,17 @@ func TestVerif_C18(t *testing.T) {
 	vrun.Main(t, "C18", func(r *vrun.Run) {
 		r.Rule = "every byte string up to length 2 (3 in thorough), every string over {'{','}',a,b} up to length 8 (11 thorough), counter-generated long keys; each compared with bitwise CRC16-XMODEM of the spec's hash tag; multi-key builders on all tuples of a 7-key set. non-trivial = key containing '{' or multi-key tuple"
 		if raw, ok := r.ReplayPayload(); ok {
+			if strings.Contains(string(raw), `"step"`) || strings.Contains(string(raw), `"Step"`) {
+				c33main(r, true) // a slot violation found by the builder-graph walk
+				return
+			}
 			replayC18(r, string(raw))
 			return
+		}
+		// 0. every builder method that takes a key must set the command's slot: reflection walk over the
+		// whole builder type graph (engine shared with C33), reporting only the slot rules
+		if r.Mine(3) {
+			c33main(r, true)
 		}
 		one := func(k string) {
 			r.Evaluations++
